@@ -119,6 +119,18 @@ def PS.matchType (p : PS) (ty : TokTyp) : Option (Tok × PS) :=
 def relOps : List (Bytes × BinOp) :=
   [(b!"==", .eq), (b!"<=", .le), (b!">=", .ge), (b!"!=", .ne), (b!"<>", .ne), (b!">", .gt), (b!"<", .lt)]
 
+/-- the optional leading sign of a simple expression -/
+def signStep (p : PS) : Bool × PS :=
+  match p.ts with
+  | t :: _ => if t.isSym b!"+" then (false, p.adv) else if t.isSym b!"-" then (true, p.adv) else (false, p)
+  | [] => (false, p)
+
+/-- the optional leading `!` / `not` of a simple expression -/
+def notStep (p : PS) : Bool × PS :=
+  match p.ts with
+  | t :: _ => if t.isSym b!"!" || t.isKw b!"not" then (true, p.adv) else (false, p)
+  | [] => (false, p)
+
 /-! ### expressions -/
 
 mutual
@@ -161,12 +173,8 @@ def parseRelational (cfg : SetCfg) : Nat → PS → PM (Expr × PS)
 def parseSimple (cfg : SetCfg) : Nat → PS → PM (Expr × PS)
   | 0, _ => .error { kind := .outOfFuel }
   | fuel+1, p => do
-    let (negSign, p) : Bool × PS := match p.ts with
-      | t :: _ => if t.isSym b!"+" then (false, p.adv) else if t.isSym b!"-" then (true, p.adv) else (false, p)
-      | [] => (false, p)
-    let (neg, p) : Bool × PS := match p.ts with
-      | t :: _ => if t.isSym b!"!" || t.isKw b!"not" then (true, p.adv) else (false, p)
-      | [] => (false, p)
+    let (negSign, p) := signStep p
+    let (neg, p) := notStep p
     let (t1, p) ← parseTerm cfg fuel p
     let first := if neg || negSign then Expr.unary neg negSign t1 else t1
     simpleLoop cfg fuel first p
